@@ -18,7 +18,7 @@ RULE = ('each case = 40-300 steps: peer DATA sized against the shadow windows (e
         'opened before/after the ACK incl. reserved pushed streams; non-trivial = at least one fitting and the final '
         'overrun/last delivery judged; distinct = hash of step list')
 MINIMA = {'window_queries_checked': 20000, 'data_fit_accepted': 5000, 'data_exact_fit_accepted': 300,
-          'data_overrun_rejected': 300, 'raising_increment_checked': 300, 'iws_ack_applied': 300,
+          'data_overrun_rejected': 300, 'raising_increment_checked': 300, 'raising_acknowledgement_checked': 300, 'iws_ack_applied': 300,
           'empty_data_on_exhausted_or_negative_window': 500, 'empty_data_on_negative_window': 100,
           'iws_changes_overlapping_in_flight': 300}
 MAXW = 2 ** 31 - 1
@@ -342,6 +342,32 @@ def run_case(idx, rng, tier, rep):
                     continue
                 d.account_out(res)
                 rep.count('valid_increment_checked')
+        elif r < 0.70 and rng.random() < 0.5:
+            # an acknowledgement that is refused (never-used stream id, stream 0, negative size) changes no window and
+            # emits nothing, however much it claims to acknowledge
+            hi = max([0] + list(getattr(t.c, 'streams', {})) + [getattr(t.c, 'highest_inbound_stream_id', 0),
+                                                                getattr(t.c, 'highest_outbound_stream_id', 0)])
+            total = sum(d.unacked.values())
+            sid, k = rng.choice([(hi + 2, None), (hi + 3, None), (hi + 21, None), (0, None), (-1, None), (None, -1)])
+            if k is None:
+                k = rng.choice([1, 1024, max(1, total), 40000, 65535])
+            if sid is None:
+                sid = rng.choice(d.accepts) if d.accepts else hi + 2
+            before = snapshot(d)
+            res = t.call('acknowledge_received_data', k, sid)
+            d.steps.append(('refused-ack', sid, k))
+            if res.exc is None:
+                d.fail('C04:acknowledgement-for-unusable-stream-accepted', 'acknowledge_received_data(%d, %d) returned normally' % (k, sid))
+                continue
+            rep.count('raising_acknowledgement_checked')
+            after = snapshot(d)
+            if res.frames or after != before:
+                diff = [x for x in before if before[x] != after.get(x)]
+                d.fail('C04:raising-acknowledgement-changed-window' if after != before else 'C04:raising-acknowledgement-emitted',
+                       'acknowledge_received_data(%d, %d) raised %s but changed %s: %s -> %s, emitted %s' %
+                       (k, sid, type(res.exc).__name__, diff, [before[x] for x in diff], [after.get(x) for x in diff],
+                        [f.brief() for f in res.frames]))
+                continue
         elif r < 0.78 and any(d.unacked.values()):
             sid = rng.choice([s for s, n in d.unacked.items() if n])
             n = d.unacked[sid]
